@@ -178,7 +178,7 @@ def build_driver():
 def harness(args, timeout=1500):
     """run a harness subcommand, parse its JSON summary"""
     rc, out, dt = run([os.path.join(BIN, "harness")] + args, timeout=timeout, env=GOENV)
-    lines = [l for l in out.splitlines() if l.startswith("{")]
+    lines = [l for l in out.split("\n") if l.startswith("{")]
     if rc != 0 or not lines:
         raise Broken("harness %s failed (rc=%s):\n%s" % (args[0], rc, out[-3000:]))
     return json.loads(lines[-1])
